@@ -6,6 +6,7 @@ import (
 	"fmt"
 	"math/rand"
 	"strings"
+	"sync"
 	"testing"
 	"time"
 
@@ -83,7 +84,8 @@ func runC19Probe(run *Run, seed int64, sc c19Scn) (out []*c01Result) {
 		seq      uint32
 		at       time.Time
 		health   int
-		indirect []string // helpers asked
+		mu       sync.Mutex // the helpers' receive loops append while timers read
+		indirect []string   // helpers asked
 		nackable int
 	}
 	var cur *probe
@@ -115,10 +117,12 @@ func runC19Probe(run *Run, seed int64, sc c19Scn) (out []*c01Result) {
 				if l.Type == TIndirectPing && cur != nil {
 					var ip WIndirectPing
 					if mpDecode(l.Body, &ip) == nil && ip.Node == "T" {
+						cur.mu.Lock()
 						cur.indirect = append(cur.indirect, h.Name)
 						if ip.Nack {
 							cur.nackable++
 						}
+						cur.mu.Unlock()
 					}
 				}
 			}
@@ -214,13 +218,18 @@ func runC19Probe(run *Run, seed int64, sc c19Scn) (out []*c01Result) {
 		}
 		if a.Nacks > 0 {
 			time.AfterFunc(time.Until(p.at.Add(cf.ProbeTimeout+50*time.Millisecond)), func() {
+				p.mu.Lock()
+				asked := append([]string(nil), p.indirect...)
+				p.mu.Unlock()
 				sent := 0
-				for _, hn := range p.indirect {
+				for _, hn := range asked {
 					if sent >= a.Nacks {
 						break
 					}
-					rig.Peers[hn].Send(Enc(TNack, &WNack{SeqNo: p.seq}))
-					sent++
+					if fp := rig.Peers[hn]; fp != nil {
+						fp.Send(Enc(TNack, &WNack{SeqNo: p.seq}))
+						sent++
+					}
 				}
 			})
 		}
@@ -264,7 +273,10 @@ func runC19Probe(run *Run, seed int64, sc c19Scn) (out []*c01Result) {
 			when = "after-udp-timeout"
 		}
 		run.Cell("probe", a.Via, fmt.Sprintf("seq%+d", a.SeqRel), when, a.TCPKind, fmt.Sprintf("ind=%d", sc.Indirect), fmt.Sprintf("health=%d", hBefore))
-		desc := fmt.Sprintf("probe #%d seq %d at health %d (deadline +%v): answer %+v; indirect peers asked %v (nack-capable %d)", ai, p.seq, hBefore, interval, a, p.indirect, p.nackable)
+		p.mu.Lock()
+		askedNames, nackable := append([]string(nil), p.indirect...), p.nackable
+		p.mu.Unlock()
+		desc := fmt.Sprintf("probe #%d seq %d at health %d (deadline +%v): answer %+v; indirect peers asked %v (nack-capable %d)", ai, p.seq, hBefore, interval, a, askedNames, nackable)
 		if answered && suspected {
 			fail("answered-but-suspected", "an acknowledgement carrying the probe's own sequence number arrived before the deadline, yet the target was suspected: %s", desc)
 			return
@@ -277,8 +289,8 @@ func runC19Probe(run *Run, seed int64, sc c19Scn) (out []*c01Result) {
 		want := hBefore
 		if answered {
 			want--
-		} else if p.nackable > 0 {
-			missed := p.nackable - a.Nacks
+		} else if nackable > 0 {
+			missed := nackable - a.Nacks
 			if missed < 0 {
 				missed = 0
 			}
